@@ -420,3 +420,44 @@ func init() {
 		return r
 	}
 }
+
+// bufio.Scanner: a ghost counter of remaining tokens ($scanRem) and a flag telling whether the
+// scan stopped because of an error ($scanFailed). Declared as ghost vars in /verif/spec/io.spec.
+func init() {
+	libModels["bufio.NewScanner"] = func(fr *frame, in ssa.Instruction, c *ssa.CallCommon, args []Val, st *State, reach string) Val {
+		fc := fr.fc
+		r := fc.newRef(st, "scanner")
+		rem := fc.fresh("scanrem", SInt)
+		fc.fact("(<= 0 " + rem.S + ")")
+		st.heap["GV$scanRem"] = rem
+		st.heap["GV$scanFailed"] = Term{"false", SBool}
+		return r
+	}
+	libModels["bufio.(*Scanner).Split"] = func(fr *frame, in ssa.Instruction, c *ssa.CallCommon, args []Val, st *State, reach string) Val {
+		return nil
+	}
+	libModels["bufio.(*Scanner).Scan"] = func(fr *frame, in ssa.Instruction, c *ssa.CallCommon, args []Val, st *State, reach string) Val {
+		fc := fr.fc
+		rem := fc.heapGet(st, "GV$scanRem", SInt)
+		ok := fc.fresh("scan_ok", SBool)
+		failed := fc.fresh("scan_failed", SBool)
+		fc.fact(fmt.Sprintf("(=> %s (> %s 0))", ok.S, rem.S))
+		fc.fact(fmt.Sprintf("(=> %s (not %s))", ok.S, failed.S))
+		st.heap["GV$scanRem"] = fc.define("scanrem", Term{fmt.Sprintf("(ite %s (- %s 1) %s)", ok.S, rem.S, rem.S), SInt})
+		st.heap["GV$scanFailed"] = failed
+		return ok
+	}
+	libModels["bufio.(*Scanner).Text"] = func(fr *frame, in ssa.Instruction, c *ssa.CallCommon, args []Val, st *State, reach string) Val {
+		fc := fr.fc
+		v := fc.fresh("scan_text", SString)
+		fc.fact(fmt.Sprintf("(str.in_re %s (re.* (re.range \"\\u{0}\" \"\\u{ff}\")))", v.S))
+		return v
+	}
+	libModels["bufio.(*Scanner).Err"] = func(fr *frame, in ssa.Instruction, c *ssa.CallCommon, args []Val, st *State, reach string) Val {
+		fc := fr.fc
+		failed := fc.heapGet(st, "GV$scanFailed", SBool)
+		return maybeErr(fc, Term{not(failed.S), SBool})
+	}
+	libTouches["bufio.(*Scanner).Scan"] = []string{"GV$scanRem", "GV$scanFailed"}
+	libTouches["bufio.NewScanner"] = []string{"GV$scanRem", "GV$scanFailed", "Alloc"}
+}
